@@ -8,6 +8,7 @@
 import YtkProofs.Diff
 import YtkProofs.DiffSpec
 import YtkProofs.DiffRel
+import YtkProofs.DiffOverlay
 import YtkProofs.ValidB
 
 namespace Ytk.C07
@@ -73,6 +74,14 @@ theorem diff_det_tiefree_partial (l r : AMap Node) (ms : List Mod) (h : EmitRel 
     (hn : ((emit l r).map (·.path)).Nodup) : sortMods ms = diff l r :=
   sortMods_congr (filter_eq_of_perm_of_nodup (emitRel_perm h) hn)
 
+/-- OverlayDocs(l, r)[name] = Diff(layer_l or {}, layer_r or {}) for every layer name of either
+    side, and there is no other entry. -/
+theorem overlayDocs_spec (l r : AMap (AMap Node)) (hl : AMap.Sorted l) (hr : AMap.Sorted r) (n : String) :
+    AMap.get? (overlayDocs l r) n =
+      if (AMap.get? l n).isSome ∨ (AMap.get? r n).isSome
+      then some (diff ((AMap.get? l n).getD []) ((AMap.get? r n).getD []))
+      else none := get?_overlayDocs l r hl hr n
+
 /-
   TODO (stated, not proved) — determinism at full strength, and the two facts it rests on:
 
@@ -135,6 +144,10 @@ theorem nonvacuous_other_order :
     EmitRel.cont (l' := [("b", .leaf (i 2)), ("a", .leaf (i 1))]) (r' := []) (List.Perm.swap ..) (List.Perm.refl _)
       (.leftOnly (by decide +kernel) (.leaf _ _) (.leftOnly (by decide +kernel) (.leaf _ _) (.nil _ _))),
     by decide +kernel, by decide +kernel⟩
+
+theorem nonvacuous_overlay :
+    overlayDocs [("base", exL), ("dev", exR)] [("base", exR), ("prod", exL)] =
+      [("base", diff exL exR), ("dev", diff exR []), ("prod", diff [] exL)] := by decide +kernel
 
 theorem nonvacuous_tiefree : ((emit exR exL).map (·.path)).Nodup := by decide +kernel
 
